@@ -35,6 +35,7 @@ case "${1:-}" in
   --setup)
     build_main release || exit 1
     build_main plain || exit 1
+    build_main opt0 || exit 1
     if [ -x "$VERIF_DIR/sanit/setup.sh" ]; then "$VERIF_DIR/sanit/setup.sh" || exit 1; fi
     echo "setup ok"; exit 0;;
   --replay)
@@ -54,5 +55,9 @@ case "$ID" in
   C15|C16|C20) build_main plain || { echo "INCONCLUSIVE property=$ID reason=plain-profile build failed"; exit 2; }
                export AVM_PLAIN_BIN="$(bin_of plain)";;
 esac
+if [ "$ID" = C20 ]; then
+  build_main opt0 || { echo "INCONCLUSIVE property=$ID reason=unoptimised-profile build failed"; exit 2; }
+  export AVM_OPT0_BIN="$(bin_of opt0)"
+fi
 export AVM_BIN="$(bin_of release)"
 exec "$AVM_BIN" check "$ID" --tier "$TIER" --seed "${VERIF_SEED:-1}" --verif-dir "$VERIF_DIR"
